@@ -335,6 +335,79 @@ func rulesC04(c *Ctx) {
 		c.Pin("cancel by id", roles["by-id"], 1)
 	})
 
+	c.Rule("R-C04-8", "cancelling one call never fails the streamable client's whole session: where the goroutines that read a call's response hit a read error, they mark the connection failed only if the call's own context is still alive (the response body is governed by that context)", func() {
+		failObj := c.FnObj(pM, "streamableClientConn", "fail")
+		n := 0
+		for _, name := range []string{"handleJSON", "processStream"} {
+			f := c.Fn(pM, "streamableClientConn", name)
+			g := f.Graph()
+			ctxP := f.CtxParam()
+			c.Need(ctxP != nil, name+": the call's context")
+			// error variables that come from reading the response body
+			readErrs := map[types.Object]int{} // error variable → vertex where the read bound it
+			for _, call := range f.AllCalls(f.Body, false) {
+				fn := f.Callee(call)
+				if fn == nil {
+					continue
+				}
+				if fn.FullName() == "io.ReadAll" {
+					if as, ok := f.ParentOf(call).(*ast.AssignStmt); ok && len(as.Lhs) == 2 {
+						readErrs[f.ObjOf(as.Lhs[1])] = g.VertexOf(call)
+					}
+				}
+			}
+			inspectNoLit(f.Body, func(x ast.Node) {
+				if rs, ok := x.(*ast.RangeStmt); ok && rs.Value != nil {
+					if ce, ok := ast.Unparen(rs.X).(*ast.CallExpr); ok && f.Callee(ce) != nil && f.Callee(ce).Name() == "scanEvents" {
+						readErrs[f.ObjOf(rs.Value)] = g.VertexOf(rs.X)
+					}
+				}
+			})
+			c.Need(len(readErrs) > 0, name+": the error of reading the response")
+			// the branches taken when that read failed (the variable not having been reassigned in between)
+			onReadFailure := map[int]bool{}
+			for _, ev := range g.condVertices() {
+				for k := 0; k < 2; k++ {
+					var atoms []Atom
+					splitAtoms(g.Node(ev-1).(ast.Expr), k == 0, &atoms)
+					for _, a := range atoms {
+						for o, rv := range readErrs {
+							if AtomSaysNil(a, false, func(e ast.Expr) bool { return f.ObjOf(e) == o }) && !g.writtenBetween(o, rv, ev-1) {
+								seen, _ := g.reach([]int{g.succ[ev][k]}, nil, nil)
+								seen[g.succ[ev][k]] = true
+								for v, s := range seen {
+									if s {
+										onReadFailure[v] = true
+									}
+								}
+							}
+						}
+					}
+				}
+			}
+			for _, v := range g.callVertices(failObj) {
+				guards := g.GuardsAt(v)
+				if !onReadFailure[v] || !hasAtom(guards, func(a Atom) bool {
+					return AtomSaysNil(a, false, func(e ast.Expr) bool { _, is := readErrs[f.ObjOf(e)]; return is })
+				}) {
+					continue // not on a read-error branch
+				}
+				// a malformed-event error is a protocol violation of the peer, whatever the context
+				if hasAtom(guards, func(a Atom) bool {
+					ce, ok := a.E.(*ast.CallExpr)
+					return ok && a.Val && f.Callee(ce) != nil && f.Callee(ce).FullName() == "errors.Is" && len(ce.Args) == 2 && f.ObjOf(ce.Args[1]) == c.Obj(pM, "errMalformedEvent")
+				}) && hasAtom(guards, func(a Atom) bool { return ctxAliveAtom(f, a, ctxP) }) {
+					n++
+					c.Ok(name+":fail-on-read-error#"+itoa(n), f, g.Node(v), "malformed event: fails the connection, and only after the context test")
+					continue
+				}
+				n++
+				c.Check(hasAtom(guards, func(a Atom) bool { return ctxAliveAtom(f, a, ctxP) }), name+":fail-on-read-error#"+itoa(n), f, g.Node(v), "c.fail after a failed read of the response is reached only when ctx.Err() == nil (guards: %s): a read that failed because the caller cancelled its call is not a broken connection", atomsString(guards))
+			}
+		}
+		c.Pin("fail sites behind a response read error", n, 2)
+	})
+
 	c.Import("R-C04-7", "cancelling one call disturbs no other: the cancellation notice is a valid message of the protocol version in use, so the peer does not answer it with an error that the transport treats as the end of the session", "C12", "R-C12-7", nil)
 
 	c.Rule("R-C04-6", "an undeliverable notice does not break the session: a failed write marks the writer broken only when the write's own context has not ended and the error is not a per-message rejection", func() { ruleWriteErrGuard(c) })
@@ -609,4 +682,16 @@ func ruleWriteErrGuard(c *Ctx) {
 			"writeErr (which cancels every handler and refuses all further calls) is set only under ctx.Err() == nil && !errors.Is(err, ErrRejected) (guards: %s): a cancel notice that times out or is rejected must leave the session usable", atomsString(guards))
 	}
 	c.Pin("writeErr closure", n, 1)
+}
+
+// ctxAliveAtom: the atom says ctx.Err() == nil for the given context parameter (either polarity spelling).
+func ctxAliveAtom(f *Func, a Atom, ctxP *types.Var) bool {
+	return AtomSaysNil(a, true, func(e ast.Expr) bool {
+		ce, ok := ast.Unparen(e).(*ast.CallExpr)
+		if !ok {
+			return false
+		}
+		sel, ok := ast.Unparen(ce.Fun).(*ast.SelectorExpr)
+		return ok && sel.Sel.Name == "Err" && f.ObjOf(sel.X) == types.Object(ctxP)
+	})
 }
